@@ -362,14 +362,14 @@ func c10Run(c *core.Ctx) {
 	rec = func(d, max int) {
 		if d == max {
 			cnt++
-			if cnt&4095 == 0 && c.Expired() {
+			if c.Tick() {
 				return
 			}
 			s := string(buf)
 			c.Cur(s)
 			c.Inc("inputs")
 			k, _ := lexCheck(lb, s)
-			if k != "" && !c.Saturated() {
+			if k != "" && c.ShrinkOK(k) {
 				c.Violate(c10Violation(lb, append([]byte{}, buf...), k))
 			}
 			if cnt%300007 == 0 {
@@ -454,7 +454,7 @@ func c10Run(c *core.Ctx) {
 			return
 		}
 		if d == L {
-			if c.Count0()&8191 == 0 && c.Expired() {
+			if c.Tick() {
 				return
 			}
 			recS(0, L)
